@@ -39,8 +39,12 @@ def _params(func):
 def local_names(func):
     names = set()
     glob = set()
+    comp_targets = set()
     for n in _own(func):
-        if isinstance(n, ast.Name) and isinstance(n.ctx, (ast.Store, ast.Del)):
+        if isinstance(n, ast.comprehension):
+            comp_targets |= {id(x) for x in ast.walk(n.target) if isinstance(x, ast.Name)}
+    for n in _own(func):
+        if isinstance(n, ast.Name) and isinstance(n.ctx, (ast.Store, ast.Del)) and id(n) not in comp_targets:
             names.add(n.id)
         elif isinstance(n, ast.ExceptHandler) and n.name:
             names.add(n.name)
@@ -128,7 +132,8 @@ def functions_of(tree):
 
 def build_reference(modules):
     """modules: {module name: ast tree} -> reference table"""
-    ref = {}
+    from .canon import build_function_reference
+    ref = {'__functions__': build_function_reference(modules)}
     for mname, tree in modules.items():
         for q, f in functions_of(tree):
             fps = fingerprints(f)
@@ -179,10 +184,24 @@ def _inline_return_temps(f, known):
 
 def normalise(mname, tree):
     """rename renamed locals of the module's functions back to their reference names; returns the list of renames done"""
+    from .canon import canonicalise_functions, canonicalise_temps
+    done = list(canonicalise_functions(mname, tree, load_reference()))
     ref = load_reference().get(mname)
-    done = []
     if not ref:
+        done.extend(canonicalise_temps(mname, tree, load_reference()))
         return done
+    for _round in (1, 2):
+        _rename_locals_back(tree, ref, done)
+        # new temporaries are substituted only now (a renamed reference local is not a new temporary); a second round of renaming sees
+        # right-hand sides without them
+        more = canonicalise_temps(mname, tree, load_reference())
+        done.extend(more)
+        if not more:
+            break
+    return done
+
+
+def _rename_locals_back(tree, ref, done):
     for q, f in functions_of(tree):
         rf = ref.get(q)
         # a local the reference function does not have, bound once and returned by the very next statement, is a "return through a
@@ -199,9 +218,22 @@ def normalise(mname, tree):
         extra = [a for a in act if a not in rf]
         mapping = {}
         for r in missing:
-            cands = [a for a in extra if act[a] == rf[r] and a not in mapping.values()]
+            cands = [a for a in extra if act[a] == rf[r] and a not in mapping]
             if len(cands) == 1:
                 mapping[cands[0]] = r
+        # several locals with the same fingerprint (`n = tree_name`, `s = replace_code`): pair them in the order of their first binding
+        # (both tables keep that order) when the groups have the same size
+        groups = {}
+        for r in missing:
+            if r not in mapping.values():
+                groups.setdefault(rf[r], [[], []])[0].append(r)
+        for a in extra:
+            if a not in mapping and act[a] in groups:
+                groups[act[a]][1].append(a)
+        for fp, (rs, as_) in groups.items():
+            if len(rs) == len(as_) and len(rs) > 1:
+                for r, a in zip(rs, as_):
+                    mapping[a] = r
         if not mapping:
             continue
         for n in ast.walk(f):
@@ -210,4 +242,3 @@ def normalise(mname, tree):
             elif isinstance(n, ast.ExceptHandler) and n.name in mapping:
                 n.name = mapping[n.name]
         done.extend((q, a, r) for a, r in mapping.items())
-    return done
